@@ -139,6 +139,14 @@ def _elem_size(t):
 
 
 # ---------------------------------------------------------------- linear facts and Fourier-Motzkin
+def int_value_safe(n):
+    from ..astutil import int_value
+    try:
+        return int_value(strip(n, casts=True))
+    except Exception:
+        return None
+
+
 def _linear(poly, what):
     """poly over count symbols -> ({sym: coeff}, const); AnalysisBroken if not linear."""
     co, c0 = {}, Fraction(0)
@@ -520,6 +528,8 @@ class Threading:
             self.assign(kids(s)[0], nv, s, facts)
         elif k in ("ForStmt", "WhileStmt"):
             self.loop(s, facts)
+        elif k == "DoStmt" and not (int_value_safe(kids(s)[1]) == 0):
+            self.loop(s, facts)
         elif k in ("DoStmt", "ParenExpr", "ConditionalOperator", "CStyleCastExpr", "CallExpr", "NullStmt"):
             return          # assertions / logging
         elif k == "IfStmt":
@@ -547,8 +557,23 @@ class Threading:
 
     def loop(self, s, facts):
         ch = kids(s)
+        is_do = s["kind"] == "DoStmt"
         if s["kind"] == "ForStmt":
             init, cond, inc, body = ch[0], ch[2], ch[3], ch[4]
+        elif is_do:
+            # do B while (test): the body runs once before the first test.  A step inside the test (--n > 1) is the
+            # increment of the round, the comparison reads the stepped value
+            init, cond, inc, body = None, ch[1], None, ch[0]
+            c0 = strip(cond)
+            if c0["kind"] == "BinaryOperator" and c0.get("opcode") in ("<", "<=", ">", ">=", "!="):
+                l0 = strip(kids(c0)[0])
+                if l0["kind"] == "UnaryOperator" and l0.get("opcode") in ("++", "--") and not l0.get("isPostfix"):
+                    inc = l0
+                    c1 = dict(c0)
+                    c1["inner"] = [kids(l0)[0], kids(c0)[1]]
+                    cond = c1
+                elif l0["kind"] == "UnaryOperator" and l0.get("opcode") in ("++", "--"):
+                    raise AnalysisBroken("IDX: do-while test with a post-step is not modelled")
         else:
             init, cond, inc, body = None, ch[0], None, ch[1]
         if init is not None and init["kind"] != "Null":
@@ -587,8 +612,16 @@ class Threading:
         def at(itp):
             for v in ivars:
                 self.env[v] = Val(start[v].kind, start[v].p + steps[v] * itp, start[v].esz)
+        if is_do:
+            # the first round runs without any test
+            at(Poly())
+            f_first = facts
+            self.mem = {}
+            self.stmt(body, f_first)
         at(ITER)
         f_body = facts.add_le0(ITER.scale(-1), "%s >= 0" % it)
+        if is_do:
+            f_body = facts.add_le0(Poly.const(1) - ITER, "%s >= 1" % it)
         f_body = self.guard_facts(f_body, cond, True, "guard %s holds at iteration %s" % (render(cond), it))
         nob = len(self.obligations)
         self.mem = {}
@@ -637,12 +670,19 @@ class Threading:
         # ---- after the loop: it = 0 with the guard false, or it >= 1 with the guard true at it-1 and false at it
         self.mem = {}
         cases = []
-        at(Poly())
-        fa = self.guard_facts(facts, cond, False, "guard false at entry")
-        if fa.feasible():
-            cases.append((Poly(), fa))
+        if is_do:
+            # one round, test false afterwards
+            at(Poly.const(1))
+            fa = self.guard_facts(facts, cond, False, "guard false after the first round")
+            if fa.feasible():
+                cases.append((Poly.const(1), fa))
+        else:
+            at(Poly())
+            fa = self.guard_facts(facts, cond, False, "guard false at entry")
+            if fa.feasible():
+                cases.append((Poly(), fa))
         at(ITER - Poly.const(1))
-        fb = facts.add_le0(Poly.const(1) - ITER, "%s >= 1" % it)
+        fb = facts.add_le0((Poly.const(2) if is_do else Poly.const(1)) - ITER, "%s >= %d" % (it, 2 if is_do else 1))
         fb = self.guard_facts(fb, cond, True, "guard %s held at iteration %s-1" % (render(cond), it))
         at(ITER)
         fb = self.guard_facts(fb, cond, False, "guard false at iteration %s" % it)
